@@ -1,5 +1,6 @@
 import Driver.Codec
 import LopdfModel.Model.Outlines
+import LopdfModel.Model.ExtractText
 /-
   Protocol operation of property C13:
     c13 <mode> <fuel> <nt> <target id>* <trailer-obj> <k> (<num> <gen> <obj>)*
@@ -58,14 +59,42 @@ def parseId (s : String) : Option ObjId :=
 def fieldNames (targets : List ObjId) : List String :=
   ["cat", "enc", "cf", "iter", "pages"] ++
   (targets.map fun t => ["go", "gom", "gd", "pc", "pcc", "pr", "pf", "pa", "pi", "op", "fe", "nd"].map (· ++ ":" ++ idStr t)).flatten ++
-  ["outl", "toc", "dests"]
+  ["outl", "toc", "dests", "xt"]
+
+/-- flate2 / weezl are never consulted on the documents the `xt` field is compared on (no `Filter`) -/
+def noExt : Ext := { inflate := fun b => b, lzw := fun _ b => b }
+
+/-- is `extract_text` of this page outside the composed model: a font with a `ToUnicode` entry (C15)
+or a UTF-16 `Encoding` name (encoding_rs), or a content stream with a `Filter` (flate2 / weezl)? -/
+def xtOutOfModel (os : Objects) (pid : ObjId) : Bool :=
+  (match getPageFonts os pid with
+   | .ok fonts => fonts.any fun (_, f) =>
+       f.has K_ToUnicode || (match (Dict.get f K_Encoding).bind Obj.asName with
+         | some n => SIMPLE_UTF16_NAMES.contains n
+         | none => false)
+   | _ => false) ||
+  (getPageContents os pid).any fun id =>
+    match (getObject os id).bind Obj.asStream with
+    | some (d, _) => d.has K_Filter
+    | none => false
+
+def xtField (tr : Dict) (os : Objects) : String :=
+  match getPages MEM_MAX tr os with
+  | .ok pages =>
+    let nums := (List.range (min pages.length 3)).map (· + 1)
+    if nums.any (fun n => match pageByNumber pages n with
+        | some pid => xtOutOfModel os pid
+        | none => false) then "ok,?"
+    else outS ((extractTextDoc MEM_MAX noExt tr os nums).map fun t => ".".intercalate (t.map toString))
+  | .err _ => "err"
+  | .panic s => "panic@" ++ s
 
 def isWalker (f : String) : Bool := f == "outl" || f == "toc" || f == "dests" || f.startsWith "nd:"
 
 def pagesStr (r : Outcome (List ObjId)) : String :=
   outS (r.map fun l => toString l.length ++ "," ++ idsStr l)
 
-def evalField (tr : Dict) (os : Objects) (fuel : Nat) (field : String) : String :=
+def evalField (tr : Dict) (os : Objects) (_fuel : Nat) (field : String) : String :=
   let (q, t) : String × ObjId := match field.splitOn ":" with
     | [q, a] => (q, (parseId a).getD (0, 0))
     | _ => (field, (0, 0))
@@ -80,7 +109,7 @@ def evalField (tr : Dict) (os : Objects) (fuel : Nat) (field : String) : String 
   | "gom" => outS ((getObjectMut os t).map variant)
   | "gd" => outS (optO (fun d => toString d.length) (getDictionary os t))
   | "pc" => okS (idsStr (getPageContents os t))
-  | "pcc" => outS ((getPageContent (fun _ _ => none) os t).map fun _ => "")
+  | "pcc" => outS ((getPageContent (fun _ _ => .err "filter") os t).map fun _ => "")
   | "pr" => outS ((getPageResources os t).map fun (d, ids) =>
       (match d with | some d => "d" ++ toString d.length | none => "n") ++ "," ++ idsStr ids)
   | "pf" => outS ((getPageFonts os t).map fun fs => "+".intercalate (fs.map fun (k, d) => hexTok k ++ "." ++ toString d.length))
@@ -89,16 +118,17 @@ def evalField (tr : Dict) (os : Objects) (fuel : Nat) (field : String) : String 
   | "op" => outS ((getObjectPage MEM_MAX tr os t).map idStr)
   | "fe" => outS (match getDictionary os t with
       | none => E
-      | some d => (getFontEncoding os d).map encStr)
+      | some d => (Q13.getFontEncoding os d).map encStr)
   | "nd" => (match getDictionary os t with
       | none => "err"
-      | some d => outF ((namedDests os fuel d []).map fun r => r.map namedDigest))
+      | some d => outS ((namedDests os d []).map namedDigest))
   | "dests" => (match (catalog tr os).bind (destTree os) with
       | none => "err"
-      | some t => outF ((namedDests os fuel t []).map fun r => r.map namedDigest))
-  | "outl" => outF ((getOutlines tr os fuel).map fun r => r.map fun (l, nm) =>
+      | some t => outS ((namedDests os t []).map namedDigest))
+  | "outl" => outS ((getOutlines tr os).map fun (l, nm) =>
       "[" ++ String.join (l.map outlineDigest) ++ "]," ++ namedDigest nm)
-  | "toc" => outF ((getToc MEM_MAX tr os fuel).map fun r => r.map fun (es, nerr) =>
+  | "xt" => xtField tr os
+  | "toc" => outS ((getToc MEM_MAX tr os).map fun (es, nerr) =>
       toString es.length ++ String.join (es.map fun (lv, pg) => ":" ++ toString lv ++ "." ++ toString pg) ++ "," ++ toString nerr)
   | _ => "bad-field"
 
